@@ -30,7 +30,7 @@ let coq_string (s:string) : n list =
   List.init (String.length s) (fun i -> n_of_int (Char.code s.[i]))
 
 let outcome_name o = match o with
-  | OForward -> "FWD" | OConsumed -> "CONSUMED" | ONonSocks -> "NONSOCKS" | OUnknownHost -> "UNKNOWNHOST" | OPreSession -> "PRESESSION"
+  | OForward -> "FWD" | OConsumed -> "CONSUMED" | ONonSocks -> "NONSOCKS" | OSelfAddressed -> "SELFADDR" | OUnknownHost -> "UNKNOWNHOST" | OPreSession -> "PRESESSION"
   | OUnclaimed -> "UNCLAIMED" | OCouldntOpen -> "COULDNTOPEN" | ONoCircuit -> "NOCIRCUIT"
   | OExcSocks -> "EXC:socks" | OExcDecode -> "EXC:decode" | OExcBanned -> "EXC:banned"
   | OExcFlavor -> "EXC:flavor" | OExcBody -> "EXC:body" | OBadIndex -> "BADINDEX"
